@@ -54,6 +54,7 @@ struct WorldSim {
 		int ver = plan.c("pdu_ver", 2) == 1 ? 1 : 2;
 		int alg = (int)plan.c("mac_alg", 1);
 		if (alg != 1 && alg != 4 && alg != 5) alg = 1;
+		bw.cred_in_uri = plan.c("cred_in_uri", 0) != 0;
 		bw.setup(ver, alg, (size_t)std::max<int64_t>(1, plan.c("keylen", 8)), (size_t)std::max<int64_t>(1, plan.c("loginlen", 6)), plan.c("aggr_http", 0) != 0, plan.c("ext_http", 0) != 0);
 		bw.install_hooks();
 		ctx = sdk::new_ctx((int)plan.c("loglevel", 0));
@@ -539,6 +540,7 @@ struct WorldEngine : run::Engine {
 			p.ops.push_back(op);
 		}
 		p.cfg["conf_cb"] = (int64_t)g.below(2);
+		p.cfg["cred_in_uri"] = g.chance(1, 4) ? 1 : 0;
 		return p;
 	}
 	run::RunResult execute(const run::Plan &p, bool trace) override {
